@@ -7,6 +7,7 @@ package main
 // Lock state is tracked per path, keyed by the receiver expression text of the mutex ("s.mu").
 
 import (
+	"strings"
 	"go/ast"
 	"go/token"
 	"go/types"
@@ -20,6 +21,9 @@ func (st *State) applyCallLockEffects(fct *FuncContract, names map[string]Val) {
 
 func (st *State) checkLockExit(fct *FuncContract, pos token.Pos) {
 	for k, v := range st.locks {
+		if strings.HasPrefix(k, "#") {
+			continue
+		}
 		if v != 0 {
 			st.oblige("lock-balance", "released("+k+")", "false", pos)
 		}
